@@ -10,19 +10,19 @@ namespace Log4rs.Pattern.Parse
 /-! ### fuel-free view of the fuelled functions -/
 
 /-- `Parser::args` with the entry fuel -/
-def argsL (cc : CharClass) (P : Profile) (s : List Char) (acc : List (List Piece)) : PR (List (List Piece)) :=
-  argsLoop cc P (s.length + 1) s acc
+def argsL (cc : CharClass) (P : Profile) (d : Nat) (s : List Char) (acc : List (List Piece)) : PR (List (List Piece)) :=
+  argsLoop cc P (s.length + 1) d s acc
 
 /-- `Parser::arg` (after its `(`) with the entry fuel -/
-def argB (cc : CharClass) (P : Profile) (s : List Char) (acc : List Piece) : PR (List Piece) :=
-  argBody cc P (s.length + 1) s acc
+def argB (cc : CharClass) (P : Profile) (d : Nat) (s : List Char) (acc : List Piece) : PR (List Piece) :=
+  argBody cc P (s.length + 1) d s acc
 
-theorem next_eq (cc : CharClass) (P : Profile) (s : List Char) :
-    next cc P s = nextWith cc P (fun x => argsL cc P x []) s := by
-  unfold next
+theorem next_eq (cc : CharClass) (P : Profile) (d : Nat) (s : List Char) :
+    nextAt cc P d s = nextWith cc P (fun x => argsL cc P d x []) s := by
+  unfold nextAt
   apply nextWith_congr
   intro x hx
-  exact argsLoop_fuel_irrel cc P [] hx (by simp)
+  exact argsLoop_fuel_irrel cc P d [] hx (by simp)
 
 /-- does not start with `)` -/
 def NoParenHead (s : List Char) : Prop := ∀ t, s ≠ ')' :: t
@@ -44,68 +44,68 @@ theorem doubledClose_noParen (P : Profile) (c : Char) {r : List Char} (hr : NoPa
   · rfl
 
 /-- the closing parenthesis of an argument (what follows does not start with `)`) -/
-theorem argB_close (cc : CharClass) (P : Profile) (r : List Char) (acc : List Piece) (hr : NoParenHead r) :
-    argB cc P (')' :: r) acc = .ok acc r := by
+theorem argB_close (cc : CharClass) (P : Profile) (d : Nat) (r : List Char) (acc : List Piece) (hr : NoParenHead r) :
+    argB cc P d (')' :: r) acc = .ok acc r := by
   unfold argB
-  rw [argBody_succ_none cc P _ ')' r acc (doubledClose_noParen P ')' hr)]
+  rw [argBody_succ_none cc P _ d ')' r acc (doubledClose_noParen P ')' hr)]
   simp
 
 /-- before the repair of F6a the first `)` always closed -/
-theorem argB_close_unfixed (cc : CharClass) (P : Profile) (hP : P.doubledCloseParen = false) (r : List Char)
-    (acc : List Piece) : argB cc P (')' :: r) acc = .ok acc r := by
+theorem argB_close_unfixed (cc : CharClass) (P : Profile) (d : Nat) (hP : P.doubledCloseParen = false) (r : List Char)
+    (acc : List Piece) : argB cc P d (')' :: r) acc = .ok acc r := by
   unfold argB
-  rw [argBody_succ_none cc P _ ')' r acc (by simp [doubledClose, hP])]
+  rw [argBody_succ_none cc P _ d ')' r acc (by simp [doubledClose, hP])]
   simp
 
 /-- repair of F6a: a doubled `))` inside an argument is the piece `Text(")")` -/
-theorem argB_dbl (cc : CharClass) (P : Profile) (hP : P.doubledCloseParen = true) (r : List Char)
-    (acc : List Piece) : argB cc P (')' :: ')' :: r) acc = argB cc P r (acc ++ [.text [')']]) := by
+theorem argB_dbl (cc : CharClass) (P : Profile) (d : Nat) (hP : P.doubledCloseParen = true) (r : List Char)
+    (acc : List Piece) : argB cc P d (')' :: ')' :: r) acc = argB cc P d r (acc ++ [.text [')']]) := by
   unfold argB
-  rw [argBody_succ_some cc P _ ')' (')' :: r) acc r (by simp [doubledClose, hP, doubled])]
-  exact argBody_fuel_irrel cc P _ (by simp; omega) (by simp)
+  rw [argBody_succ_some cc P _ d ')' (')' :: r) acc r (by simp [doubledClose, hP, doubled])]
+  exact argBody_fuel_irrel cc P d _ (by simp; omega) (by simp)
 
-theorem argB_nil (cc : CharClass) (P : Profile) (acc : List Piece) :
-    argB cc P [] acc = .fail eUnclosedParen [] := by
+theorem argB_nil (cc : CharClass) (P : Profile) (d : Nat) (acc : List Piece) :
+    argB cc P d [] acc = .fail eUnclosedParen [] := by
   simp [argB, argBody]
 
 /-- one iteration of `arg()`'s loop when the next character is not `)` and `next` yields a piece -/
-theorem argB_step (cc : CharClass) (P : Profile) (c : Char) (r : List Char) (acc : List Piece)
-    (hc : c ≠ ')') (p : Piece) (r' : List Char) (hn : next cc P (c :: r) = .ok (some p) r') :
-    argB cc P (c :: r) acc = argB cc P r' (acc ++ [p]) := by
-  have hs := next_shrinks cc P (c :: r)
+theorem argB_step (cc : CharClass) (P : Profile) (d : Nat) (c : Char) (r : List Char) (acc : List Piece)
+    (hc : c ≠ ')') (p : Piece) (r' : List Char) (hn : nextAt cc P d (c :: r) = .ok (some p) r') :
+    argB cc P d (c :: r) acc = argB cc P d r' (acc ++ [p]) := by
+  have hs := nextAt_shrinks cc P d (c :: r)
   rw [hn] at hs
   simp only [PR.NextShrinks] at hs
   unfold argB
-  rw [argBody_succ_none cc P _ c r acc (doubledClose_ne P r hc)]
+  rw [argBody_succ_none cc P _ d c r acc (doubledClose_ne P r hc)]
   simp only [hc, if_false]
-  have : nextWith cc P (fun x => argsLoop cc P (c :: r).length x []) (c :: r) = .ok (some p) r' := hn
+  have : nextWith cc P (fun x => argsLoop cc P (c :: r).length d x []) (c :: r) = .ok (some p) r' := hn
   rw [this]
-  exact argBody_fuel_irrel cc P _ hs.2 (by simp)
+  exact argBody_fuel_irrel cc P d _ hs.2 (by simp)
 
-theorem argsL_nil (cc : CharClass) (P : Profile) (acc : List (List Piece)) :
-    argsL cc P [] acc = .ok acc [] := by
+theorem argsL_nil (cc : CharClass) (P : Profile) (d : Nat) (acc : List (List Piece)) :
+    argsL cc P d [] acc = .ok acc [] := by
   simp [argsL, argsLoop]
 
-theorem argsL_other (cc : CharClass) (P : Profile) (c : Char) (r : List Char) (acc : List (List Piece))
-    (hc : c ≠ '(') : argsL cc P (c :: r) acc = .ok acc (c :: r) := by
+theorem argsL_other (cc : CharClass) (P : Profile) (d : Nat) (c : Char) (r : List Char) (acc : List (List Piece))
+    (hc : c ≠ '(') : argsL cc P d (c :: r) acc = .ok acc (c :: r) := by
   simp [argsL, argsLoop, hc]
 
 /-- `args()` on `( body ) tail` when the body parses to `a` -/
-theorem argsL_open (cc : CharClass) (P : Profile) (r : List Char) (acc : List (List Piece))
-    (a : List Piece) (r' : List Char) (hb : argB cc P r [] = .ok a r') :
-    argsL cc P ('(' :: r) acc = argsL cc P r' (acc ++ [a]) := by
-  have hs := argBody_suffix cc P (r.length + 1) r []
+theorem argsL_open (cc : CharClass) (P : Profile) (d : Nat) (hd : d ≠ P.maxDepth) (r : List Char) (acc : List (List Piece))
+    (a : List Piece) (r' : List Char) (hb : argB cc P (d + 1) r [] = .ok a r') :
+    argsL cc P d ('(' :: r) acc = argsL cc P d r' (acc ++ [a]) := by
+  have hs := argBody_suffix cc P (r.length + 1) (d + 1) r []
   unfold argB at hb
   rw [hb] at hs
   simp only [PR.RestSuffix] at hs
   have hlen := hs.length_le
   unfold argsL
   rw [argsLoop]
-  simp only [if_true]
-  have : argBody cc P ('(' :: r).length r [] = .ok a r' := by
+  simp only [if_true, hd, if_false]
+  have : argBody cc P ('(' :: r).length (d + 1) r [] = .ok a r' := by
     simpa using hb
   rw [this]
-  exact argsLoop_fuel_irrel cc P _ (by simp; omega) (by simp)
+  exact argsLoop_fuel_irrel cc P d _ (by simp; omega) (by simp)
 
 /-! ### character classes: only the ASCII behaviour is assumed -/
 
@@ -411,12 +411,12 @@ theorem not_special {c : Char} (h : isSpecial c = false) :
   exact ⟨h.1.1.1.1, h.1.1.1.2, h.1.1.2, h.1.2, h.2⟩
 
 /-- `Parser::text`: a run of ordinary characters up to the next special character -/
-theorem next_text (cc : CharClass) (P : Profile) (c : Char) (t s : List Char)
+theorem next_text (cc : CharClass) (P : Profile) (d : Nat) (c : Char) (t s : List Char)
     (hc : isSpecial c = false) (ht : t.all nonSpecial = true) (hs : StartsSpecial s) :
-    next cc P (c :: (t ++ s)) = .ok (some (.text (c :: t))) s := by
+    nextAt cc P d (c :: (t ++ s)) = .ok (some (.text (c :: t))) s := by
   obtain ⟨h1, h2, h3, h4, h5⟩ := not_special hc
   obtain ⟨htk, hdr⟩ := takeWhile_nonSpecial t s ht hs
-  rw [next_eq]
+  rw [next_eq cc P d]
   simp only [nextWith, h1, h2, h3, h4, h5, if_false, textPiece, htk, hdr]
 
 theorem is_special {c : Char} (h : isSpecial c = true) :
@@ -430,22 +430,22 @@ theorem is_special {c : Char} (h : isSpecial c = true) :
   · exact Or.inr (Or.inr (Or.inr (Or.inr h)))
 
 /-- a doubled special character is the character -/
-theorem next_doubled (cc : CharClass) (P : Profile) (c : Char) (rest : List Char) (hc : isSpecial c = true) :
-    next cc P (c :: c :: rest) = .ok (some (.text [c])) rest := by
-  rw [next_eq]
+theorem next_doubled (cc : CharClass) (P : Profile) (d : Nat) (c : Char) (rest : List Char) (hc : isSpecial c = true) :
+    nextAt cc P d (c :: c :: rest) = .ok (some (.text [c])) rest := by
+  rw [next_eq cc P d]
   rcases is_special hc with h | h | h | h | h <;> subst h <;> simp [nextWith, doubled, isSpecial]
 
 /-- a backslash-escaped special character is the character -/
-theorem next_backslash (cc : CharClass) (P : Profile) (c : Char) (rest : List Char) (hc : isSpecial c = true) :
-    next cc P ('\\' :: c :: rest) = .ok (some (.text [c])) rest := by
-  rw [next_eq]
+theorem next_backslash (cc : CharClass) (P : Profile) (d : Nat) (c : Char) (rest : List Char) (hc : isSpecial c = true) :
+    nextAt cc P d ('\\' :: c :: rest) = .ok (some (.text [c])) rest := by
+  rw [next_eq cc P d]
   simp [nextWith, hc]
 
 /-- pending ordinary text in front of a special character becomes one `Text` piece -/
-theorem argB_flush (cc : CharClass) (P : Profile) (c : Char) (t s : List Char) (acc : List Piece)
+theorem argB_flush (cc : CharClass) (P : Profile) (d : Nat) (c : Char) (t s : List Char) (acc : List Piece)
     (hc : isSpecial c = false) (ht : t.all nonSpecial = true) (hs : StartsSpecial s) :
-    argB cc P (c :: (t ++ s)) acc = argB cc P s (acc ++ [.text (c :: t)]) :=
-  argB_step cc P c (t ++ s) acc (not_special hc).2.2.2.1 _ _ (next_text cc P c t s hc ht hs)
+    argB cc P d (c :: (t ++ s)) acc = argB cc P d s (acc ++ [.text (c :: t)]) :=
+  argB_step cc P d c (t ++ s) acc (not_special hc).2.2.2.1 _ _ (next_text cc P d c t s hc ht hs)
 
 
 /-! ### formatters -/
@@ -468,28 +468,28 @@ theorem cc_syntax (cc : CharClass) (hcc : CCAscii cc) :
   · rw [(hcc '_' (by decide)).2]; decide
 
 /-- the `'{'` branch of `next` on `{ name args spec } rest`, given what `name` and `args` do -/
-theorem next_formatter (cc : CharClass) (P : Profile) (nm tail : List Char) (args : List (List Piece))
+theorem next_formatter (cc : CharClass) (P : Profile) (d : Nat) (nm tail : List Char) (args : List (List Piece))
     (spec : Option FormatSpec) (rest : List Char)
     (hhead : doubled '{' (nm ++ tail) = none)
     (hname : name cc P (nm ++ tail) = (nm, tail))
-    (hargs : argsL cc P tail [] = .ok args (showSpec spec ++ '}' :: rest))
+    (hargs : argsL cc P d tail [] = .ok args (showSpec spec ++ '}' :: rest))
     (hspec : wfSpec P.wordBits spec = true) :
-    next cc P ('{' :: (nm ++ tail)) = .ok (some (.arg nm args (paramsOf spec))) rest := by
-  rw [next_eq]
+    nextAt cc P d ('{' :: (nm ++ tail)) = .ok (some (.arg nm args (paramsOf spec))) rest := by
+  rw [next_eq cc P d]
   simp only [nextWith, if_true, hhead, argumentWith, hname, hargs, parameters_show P spec rest hspec,
     closeBrace]
 
 /-- a named formatter: `nm` is a letter followed by alphanumerics, the tail starts with `:`, `}` or `(` -/
-theorem next_named (cc : CharClass) (hcc : CCAscii cc) (P : Profile) (nm : List Char) (t : Char)
+theorem next_named (cc : CharClass) (hcc : CCAscii cc) (P : Profile) (d : Nat) (nm : List Char) (t : Char)
     (tl : List Char) (args : List (List Piece)) (spec : Option FormatSpec) (rest : List Char)
     (hnm : isNameB cc.alpha (nameChar cc P) nm = true) (ht : t = ':' ∨ t = '}' ∨ t = '(')
-    (hargs : argsL cc P (t :: tl) [] = .ok args (showSpec spec ++ '}' :: rest))
+    (hargs : argsL cc P d (t :: tl) [] = .ok args (showSpec spec ++ '}' :: rest))
     (hspec : wfSpec P.wordBits spec = true) :
-    next cc P ('{' :: (nm ++ t :: tl)) = .ok (some (.arg nm args (paramsOf spec))) rest := by
+    nextAt cc P d ('{' :: (nm ++ t :: tl)) = .ok (some (.arg nm args (paramsOf spec))) rest := by
   obtain ⟨h1, h2, h3, _, h5, _⟩ := cc_syntax cc hcc
   have htn : nameChar cc P t = false := by
     rcases ht with h | h | h <;> subst h <;> simp [nameChar, h1, h2, h3]
-  apply next_formatter cc P nm (t :: tl) args spec rest _ (name_of_isName cc P nm t tl hnm htn) hargs hspec
+  apply next_formatter cc P d nm (t :: tl) args spec rest _ (name_of_isName cc P nm t tl hnm htn) hargs hspec
   cases nm with
   | nil => simp [isNameB] at hnm
   | cons a r =>
@@ -498,30 +498,30 @@ theorem next_named (cc : CharClass) (hcc : CCAscii cc) (P : Profile) (nm : List 
     simp [doubled, this]
 
 /-- the unnamed formatter `{( … ) … }` -/
-theorem next_unnamed (cc : CharClass) (hcc : CCAscii cc) (P : Profile) (tl : List Char)
+theorem next_unnamed (cc : CharClass) (hcc : CCAscii cc) (P : Profile) (d : Nat) (tl : List Char)
     (args : List (List Piece)) (spec : Option FormatSpec) (rest : List Char)
-    (hargs : argsL cc P ('(' :: tl) [] = .ok args (showSpec spec ++ '}' :: rest))
+    (hargs : argsL cc P d ('(' :: tl) [] = .ok args (showSpec spec ++ '}' :: rest))
     (hspec : wfSpec P.wordBits spec = true) :
-    next cc P ('{' :: '(' :: tl) = .ok (some (.arg [] args (paramsOf spec))) rest := by
+    nextAt cc P d ('{' :: '(' :: tl) = .ok (some (.arg [] args (paramsOf spec))) rest := by
   obtain ⟨_, _, _, h4, _, _⟩ := cc_syntax cc hcc
-  have := next_formatter cc P [] ('(' :: tl) args spec rest (by simp [doubled])
+  have := next_formatter cc P d [] ('(' :: tl) args spec rest (by simp [doubled])
     (by simp [name, h4]) hargs hspec
   simpa using this
 
 /-- `args()` stops at the format spec / closing brace -/
-theorem argsL_done (cc : CharClass) (P : Profile) (spec : Option FormatSpec) (rest : List Char)
+theorem argsL_done (cc : CharClass) (P : Profile) (d : Nat) (spec : Option FormatSpec) (rest : List Char)
     (acc : List (List Piece)) :
-    argsL cc P (showSpec spec ++ '}' :: rest) acc = .ok acc (showSpec spec ++ '}' :: rest) := by
+    argsL cc P d (showSpec spec ++ '}' :: rest) acc = .ok acc (showSpec spec ++ '}' :: rest) := by
   obtain ⟨t, tl, h, ht⟩ := specTail_head spec rest
   rw [h]
   apply argsL_other
   rcases ht with h | h <;> subst h <;> decide
 
 /-- one parenthesised argument in front of `tail` -/
-theorem argsL_arg (cc : CharClass) (P : Profile) (body tail : List Char) (acc : List (List Piece))
-    (a : List Piece) (hb : argB cc P (body ++ ')' :: tail) [] = .ok a tail) :
-    argsL cc P ('(' :: (body ++ ')' :: tail)) acc = argsL cc P tail (acc ++ [a]) :=
-  argsL_open cc P _ acc a tail hb
+theorem argsL_arg (cc : CharClass) (P : Profile) (d : Nat) (hd : d ≠ P.maxDepth) (body tail : List Char) (acc : List (List Piece))
+    (a : List Piece) (hb : argB cc P (d + 1) (body ++ ')' :: tail) [] = .ok a tail) :
+    argsL cc P d ('(' :: (body ++ ')' :: tail)) acc = argsL cc P d tail (acc ++ [a]) :=
+  argsL_open cc P d hd _ acc a tail hb
 
 theorem isName_leaf (cc : CharClass) (hcc : CCAscii cc) (P : Profile) (hus : P.underscoreNames = true)
     (k : LeafKind) (long : Bool) : isNameB cc.alpha (nameChar cc P) (leafName k long) = true := by
